@@ -1,7 +1,7 @@
 (* C10 — pinned statements: WHERE / ON narrowing never drops a row that satisfies the predicate
    (structs of integer interval-set columns; comparisons between columns, constants and integer
    expressions, equalities, IN lists, AND, OR, constants, unsupported sub-terms). *)
-From QV Require Import Intervals.Model Intervals.Proofs Fn.IntExpr Fn.IntExprProofs Expr.Filter Expr.FilterProofs.
+From QV Require Import Intervals.Model Intervals.Proofs Fn.IntExpr Fn.IntExprProofs Expr.Filter Expr.FilterProofs Expr.FilterNull.
 Open Scope Z_scope.
 
 Lemma cap_ok2 : (2 < CAP)%nat. Proof. unfold CAP. lia. Qed.
@@ -14,6 +14,26 @@ Proof. intros p. exact (narrow_sound CAP cap_ok2 p). Qed.
 Theorem C10_narrow_wf : forall p t, wf_tenv CAP t -> pred_ok p -> wf_tenv CAP (narrow CAP t p).
 Proof. intros p. exact (narrow_wf CAP cap_ok2 p). Qed.
 
+(* nullable columns: rows may hold NULL, the predicate is TRUE in three-valued logic (a comparison with a NULL
+   operand is not true).  The ranges narrowed by the same function still contain every non-null value of a
+   row on which the predicate is TRUE, and a column that stops being optional ([nflags]: the columns under a
+   comparison, an IN list or a bare boolean use, through AND, and through OR only when both sides agree) does
+   not hold NULL on such a row *)
+Theorem C10_narrow_sound_nullable : forall p env t,
+  typedO CAP env t -> pred_ok p -> pevalO env p = true -> typedO CAP env (narrow CAP t p).
+Proof. intros p. exact (narrow_soundO CAP cap_ok2 p). Qed.
+
+Theorem C10_flags_sound : forall p env f,
+  flags_ok env f -> pevalO env p = true -> flags_ok env (nflags f p).
+Proof. exact nflags_sound. Qed.
+
+(* non-vacuity: a nullable in [0,10], b nullable in [5,20];  a >= 7 OR b = 5 on the row (NULL, 5) *)
+Example C10_example_nullable :
+  let p := POr (PCmp CGtEq (EVar 0) (EConst 7)) (PCmp CEq (EVar 1) (EConst 5)) in
+  pevalO [None; Some 5] p = true /\ narrow CAP [[(0, 10)]; [(5, 20)]] p = [[(0, 10)]; [(5, 20)]] /\
+  nflags [true; true] p = [true; true] /\ nflags [true; true] (PAnd p (PCmp CGt (EVar 1) (EVar 0))) = [false; false].
+Proof. vm_compute. repeat split. Qed.
+
 (* non-vacuity: a in [0,10], b in [5,20];  a >= b AND b IN (5, 7, 30) OR a = 3 *)
 Example C10_example :
   let t := [[(0, 10)]; [(5, 20)]] in
@@ -24,3 +44,5 @@ Proof. vm_compute. repeat split. Qed.
 Check C10_narrow_sound.
 Print Assumptions C10_narrow_sound.
 Print Assumptions C10_narrow_wf.
+Print Assumptions C10_narrow_sound_nullable.
+Print Assumptions C10_flags_sound.
